@@ -47,6 +47,12 @@ CLAIMED = {
   text="No violation in ~45k (quick) / ~650k (thorough) generated histories per seed after repair, with fork depth up to 8, conflicts in the root, inherited, fork-point and own part of handles, shared handles with a chain behind the tip, and the deposit protocol of phase0/deposit.go driven on top. The check found the unbounded parent lookup (wrong validator credited, non-terminating AddValidator) from scratch and catches 12 textual mutants including depth-2-only ones. Histories are sampled; alphabet of 8 real keys.",
   note="Trusted: the 60-line sequence model (pkmodel.go). Assumed: the callers' precondition (a key at an earlier index of the same history is a top-up and never reaches AddValidator); pointer identity is the meaning of 'same cache'/'new cache' in AddValidator's doc; one goroutine per case (concurrency is C17). Watchdogs: 10 s for microsecond calls, confirmed by re-execution.",
   ref="§3 C16"),
+ "C07": dict(
+  technique="property-based differential testing (rapid): synthetic registries and generated chains; every committee, proposer and sync-committee member from the epochs context compared with a cache-free per-index transliteration of the spec, plus a reference-free partition predicate; library calls watchdog-bounded",
+  level="exploration",
+  text="Synthetic states (1..300 validators, sizes straddling the committee-count thresholds, activation/exit epochs within two epochs of now, effective balances from 0 to MAX, random mixes, any slot, every fork's state type, mainnet/minimal/custom presets) are loaded into the library from reference-encoded bytes; NewEpochsContext's committees for previous/current/next epoch, proposers of every slot of the current epoch and ComputeNextSyncCommittee (members, indices, aggregate key) must equal refspec's; committees must partition the active set with sizes differing by at most one. The same comparison runs with the live context at every epoch boundary of generated chains. Registries are sampled.",
+  note="Trusted: refspec (compute_shuffled_index per index, no caches) and the BLS library for key aggregation. States with an empty active set are excluded (known finding F-C02-05). Registry invariants the spec maintains are respected by the generator.",
+  ref="§3 C07"),
 }
 PENDING_REASON = "check not built yet in this session (designed in DESIGN.md §3; will be claimed when its machinery is committed)"
 
